@@ -72,6 +72,9 @@ type TermCtx struct {
 	localVal func(a *ssa.Alloc) *Term
 	// loadVer returns how many times the address (by key) has been stored to so far on the current path
 	loadVer func(addrKey string) int
+	// elemVal resolves a load of element k of a local array literal (`[]T{a, b}` compiles to a fresh [N]T cell
+	// whose elements are stored once) to the term stored on the path (set by the path executor)
+	elemVal func(a *ssa.Alloc, k string) *Term
 }
 
 func newTermCtx(p *Program) *TermCtx {
@@ -250,6 +253,15 @@ func (c *TermCtx) build(v ssa.Value) *Term {
 					return t
 				}
 			}
+			if ia, ok := v.X.(*ssa.IndexAddr); ok && c.elemVal != nil {
+				if a := literalArrayOf(ia.X); a != nil {
+					if k := c.Of(ia.Index); k.Op == "const" {
+						if t := c.elemVal(a, k.Sym); t != nil {
+							return t
+						}
+					}
+				}
+			}
 			x := c.Of(v.X)
 			// loads are transparent for field/index/global/free addresses
 			switch x.Op {
@@ -424,6 +436,14 @@ func (c *TermCtx) call(v *ssa.Call) *Term {
 	}
 	switch f := com.Value.(type) {
 	case *ssa.Builtin:
+		if (f.Name() == "len" || f.Name() == "cap") && len(com.Args) == 1 {
+			// the length of a whole-array slice of a local array literal is the array's length
+			if a := literalArrayOf(com.Args[0]); a != nil {
+				if at, ok := a.Type().Underlying().(*types.Pointer).Elem().Underlying().(*types.Array); ok {
+					return mk("const", strconv.FormatInt(at.Len(), 10), v)
+				}
+			}
+		}
 		return mk("builtin", f.Name(), v, args...)
 	case *ssa.Function:
 		if c.inline && c.depth < 6 {
@@ -747,4 +767,72 @@ func (c *TermCtx) PhiEdges(t *Term) []*Term {
 		out = append(out, c.Of(e))
 	}
 	return out
+}
+
+// literalArrayOf: v is the cell of a local array (`new [N]T`) or the slice of the whole of it (`cell[:]`), and the
+// cell is used only as a literal: element stores at constant indexes and that whole-array slice, which in turn
+// is only ranged over, measured or indexed for loads. Returns the cell, or nil.
+func literalArrayOf(v ssa.Value) *ssa.Alloc {
+	var a *ssa.Alloc
+	switch v := v.(type) {
+	case *ssa.Alloc:
+		a = v
+	case *ssa.Slice:
+		if v.Low != nil || v.High != nil || v.Max != nil {
+			return nil
+		}
+		a, _ = v.X.(*ssa.Alloc)
+	}
+	if a == nil {
+		return nil
+	}
+	pt, ok := a.Type().Underlying().(*types.Pointer)
+	if !ok {
+		return nil
+	}
+	if _, ok := pt.Elem().Underlying().(*types.Array); !ok {
+		return nil
+	}
+	refs := a.Referrers()
+	if refs == nil {
+		return nil
+	}
+	for _, r := range *refs {
+		switch r := r.(type) {
+		case *ssa.IndexAddr:
+			if _, isC := r.Index.(*ssa.Const); !isC || r.X != a {
+				return nil
+			}
+			for _, u := range *r.Referrers() {
+				if st, ok := u.(*ssa.Store); !ok || st.Addr != r {
+					return nil
+				}
+			}
+		case *ssa.Slice:
+			if r.X != a || r.Low != nil || r.High != nil || r.Max != nil {
+				return nil
+			}
+			for _, u := range *r.Referrers() {
+				switch u := u.(type) {
+				case *ssa.IndexAddr:
+					for _, uu := range *u.Referrers() {
+						if ld, ok := uu.(*ssa.UnOp); !ok || ld.Op != token.MUL {
+							return nil
+						}
+					}
+				case *ssa.Call:
+					if b, ok := u.Common().Value.(*ssa.Builtin); !ok || b.Name() != "len" && b.Name() != "cap" {
+						return nil
+					}
+				case *ssa.DebugRef:
+				default:
+					return nil
+				}
+			}
+		case *ssa.DebugRef:
+		default:
+			return nil
+		}
+	}
+	return a
 }
